@@ -100,7 +100,12 @@ def presorted_layer(run, rt, quick):
             bad += 1
             run.broken_tie("T-LAYER _calculate_divisions", {"minmax": l, "real": "raises " + str(r[1])[:200]})
             continue
-        divisions, mins, maxes, presorted = r[1]
+        # (since fix D165 a fifth element says which partitions hold missing keys: none of the generated pieces does)
+        divisions, mins, maxes, presorted = r[1][:4]
+        if len(r[1]) > 4 and any(r[1][4]):
+            bad += 1
+            run.broken_tie("T-LAYER _calculate_divisions reports missing keys for pieces without any", {"minmax": l, "real": repr(r[1][4])[:200]})
+            continue
         ok = [int(v) for v in mins] == [p[0] for p in l] and [int(v) for v in maxes] == [p[1] for p in l] and bool(presorted) == (model != "none")
         reported = None
         if ok and model != "none" and len(l) >= 2:      # a single input partition: set_index skips the statistics and reports unknown divisions
